@@ -455,6 +455,13 @@ class REPEX_state:
         if not self.cstep < self.tsteps:
             return False
 
+        # do not start more jobs than there are steps left (restart with
+        # fewer remaining steps than workers): close the initiation instead.
+        if self.toinitiate > 0 and (
+            self.cstep + (self.workers - self.toinitiate) >= self.tsteps
+        ):
+            self.toinitiate = 0
+
         self.cworker = self.workers - self.toinitiate
 
         if self.toinitiate == self.workers:
